@@ -699,8 +699,12 @@ static int cif_value_clone_table(struct table_value_s *value, struct table_value
  */
 static int cif_list_serialize(struct list_value_s *list, write_buffer_tp *buf) {
     FAILURE_HANDLING;
+    int result = cif_buf_write(buf, &(list->size), sizeof(size_t));
 
-    if (cif_buf_write(buf, &(list->size), sizeof(size_t)) == CIF_OK) {
+    if (result != CIF_OK) {
+        /* do not report success when the list size could not be written */
+        FAIL(fail, result);
+    } else {
         size_t i;
         for (i = 0; i < list->size; i++) {
             SERIALIZE(list->elements[i], buf, fail);
